@@ -108,6 +108,7 @@ class Path:
     def fork(s):
         p = Path(); p.frames = [f.fork() for f in s.frames]; p.pc = list(s.pc); p.last = s.last; p.nsym = s.nsym
         if hasattr(s, 'tls'): p.tls = dict(s.tls)
+        if hasattr(s, 'alloc_cnt'): p.alloc_cnt = dict(s.alloc_cnt)
         p.mem = s.mem.fork(); p.sp = s.sp; p.errno_addr = s.errno_addr
         return p
 
@@ -119,9 +120,9 @@ class Engine:
         s.gaddr = {}; s.faddr = {}; s.addr2f = {}
         s.events = []; s.asserts = []; s.assumes = []; s.exceeded = []; s.stuck = []; s.futex_waits = []
         s.may_written = set(); s.wild = False; s.D = {}; s.read_of_var = {}; s.oblig = []
-        s.wtids = {}; s.wt_new = False
+        s.wtids = {}; s.wt_new = False; s.env = []; s.time_vars = {}
         s.nfresh = 0
-        s.local_solver = z3.Solver()
+        s.local_solver = z3.Solver(); s.local_solver.set('timeout', 2000)
         s.stats = dict(paths=0, forks=0, instrs=0)
         s.loop_bounds = {}; s.fn_seen = set(); s.opts = {}; s.is_final = False
         s.layout_globals()
@@ -213,8 +214,14 @@ class Engine:
         s.nfresh += 1
         return z3.BitVec('%s_%d' % (name, s.nfresh), w)
 
-    def malloc(s, size, align=16):
+    def malloc(s, size, align=16, site_pool=False):
         align = max(align, 16)
+        if site_pool:
+            h = s.__dict__.setdefault('site_heap', HEAP_BASE + 0x8000000)
+            h = (h + align - 1) // align * align
+            s.site_heap = h + max(size, 1) + 64
+            s.__dict__.setdefault('site_allocs', []).append((h, max(size, 1)))
+            return h
         s.heap = (s.heap + align - 1) // align * align
         a = s.heap; s.heap += max(size, 1) + 64
         s.__dict__.setdefault('allocs', []).append((a, max(size, 1)))
@@ -264,7 +271,7 @@ class Engine:
             s.prev_writes = [e for e in s.events if e.kind == 'W']
             s._sub_memo = {}; s._sub_calls = 0; s._vs_memo = {}
             s.events = []; s.asserts = []; s.assumes = []; s.exceeded = []; s.stuck = []; s.futex_waits = []
-            s.writes_seen = set(); s.oblig = []; s.D_grew = False; s.wt_new = False
+            s.writes_seen = set(); s.oblig = []; s.D_grew = False; s.wt_new = False; s.env = []
             heap0 = s.heap
             for tid, nm in enumerate(names):
                 s.explore_one(tid, nm)
@@ -480,32 +487,57 @@ class Engine:
                 if n > f.symv.get(lb, 0): f.symv[lb] = n
             f.symexit |= g.symexit
         m.nsym = max(p.nsym for p in group) + 1
+        s.merge_alloc_cnt(m, group)
+        s.merge_alloc_cnt(m, group)
         s.merge_mem(m, group, conds)
         m.sp = max(p.sp for p in group)
         m.last = s.join_node(m, [p.last for p in group])
         s.stats['merges'] = s.stats.get('merges', 0) + 1
         return m
 
+    def merge_alloc_cnt(s, m, group):
+        cnt = {}
+        for p in group:
+            for k, v in getattr(p, 'alloc_cnt', {}).items():
+                if v > cnt.get(k, 0): cnt[k] = v
+        if cnt: m.alloc_cnt = cnt
+
     def merge_mem(s, m, group, conds):
         keys = set()
         for p in group: keys |= set(p.mem.d.keys())
-        for a in keys:
+        def same(c, d):
+            if c is d: return True
+            if c is None or d is None: return False
+            if c[1:] != d[1:]: return False
+            if c[0] is d[0]: return True
+            if is_c(c[0]) and is_c(d[0]): return c[0] == d[0]
+            if is_c(c[0]) or is_c(d[0]): return False
+            return c[0].eq(d[0])
+        def byte(c):
+            if c is None: return s.fresh('undef', 8)
+            v, w, bi = c
+            if is_c(v): return (v >> (8 * bi)) & 0xff
+            return simp(z3.Extract(8 * bi + 7, 8 * bi, v))
+        done = set()
+        for a in sorted(keys):
+            if a in done: continue
             cells = [p.mem.get(a) for p in group]
             c0 = cells[0]
-            def same(c, d):
-                if c is d: return True
-                if c is None or d is None: return False
-                if c[1:] != d[1:]: return False
-                if c[0] is d[0]: return True
-                if is_c(c[0]) and is_c(d[0]): return c[0] == d[0]
-                if is_c(c[0]) or is_c(d[0]): return False
-                return c[0].eq(d[0])
             if all(same(c, c0) for c in cells): continue
-            def byte(c):
-                if c is None: return s.fresh('undef', 8)
-                v, w, bi = c
-                if is_c(v): return (v >> (8 * bi)) & 0xff
-                return simp(z3.Extract(8 * bi + 7, 8 * bi, v))
+            # whole-value merge: every path holds one aligned value of the same width at [a, a + n)
+            ws = set((c[1], c[2]) if c is not None else None for c in cells)
+            if len(ws) == 1 and None not in ws and c0[2] == 0 and c0[1] > 8:
+                n = c0[1] // 8; whole = True
+                for p, c in zip(group, cells):
+                    for i in range(1, n):
+                        d = p.mem.get(a + i)
+                        if d is None or d[1] != c[1] or d[2] != i or not (d[0] is c[0] or (is_c(d[0]) and is_c(c[0]) and d[0] == c[0])): whole = False; break
+                    if not whole: break
+                if whole:
+                    v = cells[-1][0]
+                    for c, cnd in zip(reversed(cells[:-1]), reversed(conds[:-1])): v = s.ite_b(cnd, c[0], v, c0[1])
+                    for i in range(n): m.mem.d[a + i] = (v, c0[1], i); done.add(a + i)
+                    continue
             bs = [byte(c) for c in cells]
             v = bs[-1]
             for b, c in zip(reversed(bs[:-1]), reversed(conds[:-1])): v = s.ite_b(c, b, v, 8)
@@ -536,6 +568,7 @@ class Engine:
         m.sp = max(p.sp for p in group)
         m.last = s.join_node(m, [p.last for p in group])
         m.nsym = max(p.nsym for p in group) + 1
+        s.merge_alloc_cnt(m, group)
         return (m, rv)
 
     def ite_b(s, c, a, b, w=None):
@@ -555,7 +588,8 @@ class Engine:
         if s.phase != 'init':
             if label in f.symexit:
                 f.symexit.discard(label); f.symv[label] = f.symv.get(label, 0) + 1
-            n = f.symv.get(label, 0) + 1 if n < 5000 else n
+            if s.phase != 'seq': n = f.symv.get(label, 0) + 1 if n < 5000 else n
+            elif n > 40: return False
         if n > bound + 1:
             s.exceeded.append((list(p.pc), '%s:%s' % (f.fn.name[:40], label), s.tid))
             return False
@@ -590,9 +624,16 @@ class Engine:
             if (lt in loops[h]) != (lf in loops[h]): f.symexit.add(h)
         q = p.fork(); q.pc.append(c)
         if s.feasible(q.pc):
+            p.pc.append(z3.Not(c))
+            if not s.feasible(p.pc):
+                s.mark_symloops(q.frames[-1])       # a symbolic decision with one side pruned still makes the iteration symbolic
+                p = None
             if s.goto(q, q.frames[-1], lt): s.work.append(q)
-        p.pc.append(z3.Not(c))
-        if not s.feasible(p.pc): return 'end'
+            if p is None: return 'end'
+        else:
+            s.mark_symloops(f)
+            p.pc.append(z3.Not(c))
+            if not s.feasible(p.pc): return 'end'
         return 'moved' if s.goto(p, f, lf) else 'end'
 
     # ------------------------------------------------------------------ memory access
@@ -972,7 +1013,15 @@ class Engine:
              'xor': lambda: A ^ B, 'shl': lambda: A << B, 'lshr': lambda: z3.LShR(A, B), 'ashr': lambda: A >> B,
              'udiv': lambda: z3.UDiv(A, B), 'urem': lambda: z3.URem(A, B), 'sdiv': lambda: A / B,
              'srem': lambda: z3.SRem(A, B)}[op]()
-        return simp(r)
+        if op == 'mul' and w == 64 and s.time_vars:
+            # sec_k * 1e9  ->  tns_k - nsec_k   (so that sec * 1e9 + nsec folds back to the nanosecond clock variable)
+            for x, y in ((a, b), (b, a)):
+                if is_c(x) and x == 1000000000 and not is_c(y) and z3.is_const(y):
+                    tv = s.time_vars.get(str(y))
+                    if tv is not None: return simp(tv[1] - tv[0])
+        if op in ('sdiv', 'srem', 'udiv', 'urem'): return r      # keep the operator visible (rel_timeout pattern)
+        r = simp(r)
+        return r
 
     def icmp(s, pred, a, b, w):
         if is_c(a) and is_c(b):
@@ -1209,8 +1258,9 @@ class Engine:
         n = name[1:]
         if n.startswith('llvm.lifetime') or n.startswith('llvm.dbg') or n.startswith('llvm.experimental.noalias') or n == 'llvm.assume':
             return 0
-        if n in ('_ZnwmSt11align_val_t', '_ZnamSt11align_val_t'): return s.alloc(p, a[0], a[1])
-        if n in ('_Znwm', '_Znam', 'malloc'): return s.alloc(p, a[0], 16)
+        site = (f.fn.name, f.block, f.ip)
+        if n in ('_ZnwmSt11align_val_t', '_ZnamSt11align_val_t'): return s.alloc(p, a[0], a[1], site)
+        if n in ('_Znwm', '_Znam', 'malloc'): return s.alloc(p, a[0], 16, site)
         if n in ('_ZdlPvmSt11align_val_t', '_ZdlPv', '_ZdlPvm', 'free', '_ZdaPv', '_ZdlPvSt11align_val_t'): return 0
         if n.startswith('llvm.memset'):
             dst, byte, ln = a[0], a[1], a[2]
@@ -1322,44 +1372,127 @@ class Engine:
             if s.feasible(q.pc):
                 s.stub_errno(q, 11); q.frames[-1].regs[ins.res] = mask(32); s.work.append(q)
             # (b) sleeps and is resumed by a later wake (or timeout)
+            has_to = not (is_c(timeout) and timeout == 0)
+            if has_to:
+                tsec, _ = s.shared_load(p, timeout, 8, 'na', ins.text); tnsec, _ = s.shared_load(p, s.add64(timeout, 8), 8, 'na', ins.text)
+                rel = s.rel_timeout(tsec, tnsec)
+                tw = s.time_event(p, ins.text)
             resumed = z3.Bool('resumed_%d' % e.id)
             q = p.fork(); q.pc += [tobool(ok), resumed]
             rs = s.new_event(q, 'F', None, 0, None, 'resume', ins.text); rs.full = True
             s.futex_waits.append((e, rs, list(q.pc), timeout))
-            if is_c(timeout) and timeout == 0:
+            if not has_to:
                 s.stub_errno(q, 0); q.frames[-1].regs[ins.res] = 0; s.work.append(q)
             else:
                 to = z3.Bool('timedout_%d' % e.id)
-                q2 = q.fork(); q2.pc.append(to); s.stub_errno(q2, 110); q2.frames[-1].regs[ins.res] = mask(32); s.work.append(q2)
+                q2 = q.fork(); q2.pc.append(to)
+                tr = s.time_event(q2, ins.text)
+                # the kernel reports ETIMEDOUT only after the relative timeout has really elapsed
+                s.assumes.append((list(q2.pc), z3.And(z3.UGE(tobv(tr, 64), tobv(tw, 64) + tobv(rel, 64)), z3.ULT(tobv(rel, 64), 1 << 62))))
+                s.stub_errno(q2, 110); q2.frames[-1].regs[ins.res] = mask(32); s.work.append(q2)
                 q.pc.append(z3.Not(to)); s.stub_errno(q, 0); q.frames[-1].regs[ins.res] = 0; s.work.append(q)
-            # (c) sleeps forever
+            # (c) sleeps forever (only a wait without timeout can)
             p.pc += [tobool(ok), z3.Not(resumed)]
-            s.stuck.append((list(p.pc), e, ins.text, s.tid))
+            if has_to:
+                s.assumes.append((list(p.pc), z3.BoolVal(False)))
+            else:
+                s.stuck.append((list(p.pc), e, ins.text, s.tid))
             return 'end'
         if n == 'clock_gettime':
-            if s.phase == 'init': sec = 1000
+            if s.phase == 'init': sec = 1000; nsec = 0
             else:
-                sec = s.fresh('sec', 64)
-                e = s.new_event(p, 'T', None, 0, sec, 'time', ins.text)
-                p.pc.append(z3.ULT(sec, 1 << 40))
-            s.shared_store(p, a[1], 8, sec, 'na', ins.text); s.shared_store(p, s.add64(a[1], 8), 8, 0, 'na', ins.text)
+                t = s.time_event(p, ins.text); sec, nsec = s.last_time_parts
+            s.shared_store(p, a[1], 8, sec, 'na', ins.text); s.shared_store(p, s.add64(a[1], 8), 8, nsec, 'na', ins.text)
             return 0
+        if n == 'vf_now_s':
+            if s.phase == 'init': return 1000
+            s.time_event(p, ins.text); return s.last_time_parts[0]
+        if n == 'vf_now_ns' or n == '_ZN4absl7debian319GetCurrentTimeNanosEv':
+            if s.phase == 'init': return 1000 * 1000000000
+            return s.time_event(p, ins.text)
         if n in ('abort', '__assert_fail', 'llvm.trap', '_ZSt9terminatev', '_ZSt25__throw_bad_function_callv', '__cxa_pure_virtual'):
             s.asserts.append((list(p.pc), z3.BoolVal(False), 'abort: ' + ins.text[:60], s.tid)); return 'end'
         raise Unsupported('no stub for %s' % name)
+
+    def rel_timeout(s, tsec, tnsec):
+        """timespec -> nanoseconds; (x / 1e9, x % 1e9) pairs are recognised so that the solver never sees the divider"""
+        if not is_c(tsec) and not is_c(tnsec) and z3.is_app(tsec) and z3.is_app(tnsec):
+            ks, kn = tsec.decl().kind(), tnsec.decl().kind()
+            if ks in (z3.Z3_OP_BSDIV, z3.Z3_OP_BSDIV_I, z3.Z3_OP_BUDIV, z3.Z3_OP_BUDIV_I) and kn in (z3.Z3_OP_BSREM, z3.Z3_OP_BSREM_I, z3.Z3_OP_BUREM, z3.Z3_OP_BUREM_I):
+                x, c = tsec.arg(0), tsec.arg(1)
+                if tnsec.arg(0).eq(x) and tnsec.arg(1).eq(c) and z3.is_bv_value(c) and c.as_long() == 1000000000: return x
+        return s.binop('add', s.binop('mul', tsec, 1000000000, 64), tnsec, 64)
+
+    def time_event(s, p, text):
+        """symbolic monotone wall clock tied to the global event order; value = nanoseconds.
+        clock=secns (default): fresh (sec, nsec), value sec * 1e9 + nsec.  clock=ns: the reading is presented to the code
+        as tv_sec = 0, tv_nsec = <64-bit nanosecond count> -- equivalent for code that uses a timespec only through
+        tv_sec * 1e9 + tv_nsec (future.hpp wait_for_slow), and keeps the formula free of multipliers.
+        clock=sec: tv_nsec = 0 (code that only uses tv_sec)."""
+        mode = s.opts.get('clock', 'secns')
+        if mode == 'ns':
+            tns = s.fresh('tns', 64); sec = 0; nsec = tns
+            s.env.append(z3.ULT(tns, int(s.opts.get('maxtns', str(1 << 62)))))
+        elif mode == 'sec':
+            sec = s.fresh('sec', 64); nsec = 0; tns = simp(sec * z3.BitVecVal(1000000000, 64))
+            s.env.append(z3.ULT(sec, 1 << 32))
+        else:
+            sec = s.fresh('sec', 64); nsec = s.fresh('nsec', 64)
+            tns = simp(sec * z3.BitVecVal(1000000000, 64) + nsec)
+            s.env.append(z3.And(z3.ULT(sec, 1 << 32), z3.ULT(nsec, 1000000000)))
+        e = s.new_event(p, 'T', None, 0, tns, 'time', text)
+        e.init_val = (sec, nsec)
+        s.last_time_parts = (sec, nsec)
+        return tns
+
+    def fold_time(s, r):
+        """rewrite  sec_k * 1e9 + nsec_k (+ rest)  ->  tns_k (+ rest)"""
+        if is_c(r) or not s.time_vars or not z3.is_app(r) or r.decl().kind() != z3.Z3_OP_BADD: return r
+        terms = []; st = [r]
+        while st:
+            x = st.pop()
+            if z3.is_app(x) and x.decl().kind() == z3.Z3_OP_BADD: st.extend(x.children())
+            else: terms.append(x)
+        changed = False
+        for i, t in enumerate(terms):
+            if t is None or not z3.is_app(t) or t.decl().kind() != z3.Z3_OP_BMUL or t.num_args() != 2: continue
+            a, b = t.arg(0), t.arg(1)
+            if z3.is_bv_value(b): a, b = b, a
+            if not (z3.is_bv_value(a) and a.as_long() == 1000000000 and z3.is_const(b)): continue
+            tv = s.time_vars.get(str(b))
+            if tv is None: continue
+            for j, u in enumerate(terms):
+                if u is not None and j != i and u.eq(tv[0]):
+                    terms[i] = tv[1]; terms[j] = None; changed = True; break
+        if not changed: return r
+        out = None
+        for t in terms:
+            if t is None: continue
+            out = t if out is None else out + t
+        return simp(out)
 
     def stub_errno(s, p, v):
         if p.errno_addr is None:
             p.sp = (p.sp + 15) // 16 * 16; p.errno_addr = p.sp; p.sp += 16
         p.mem.store(p.errno_addr, 4, v)
 
-    def alloc(s, p, size, align):
+    def alloc(s, p, size, align, site=None):
         if not is_c(align): raise Unsupported('symbolic malloc align')
         if not is_c(size):
             vs = s.enum_values(size, p.pc)
             if not vs: return 'end'          # path infeasible under the value domains
             size = max(vs)
-        a = s.malloc(size, align)
+        if s.phase != 'threads' or site is None: return s.malloc(size, align)
+        # concurrent/sequential exploration: the k-th execution (along a path) of an allocation site by a thread always
+        # gets the same address, in every exploration round and CEGAR iteration (addresses are identities of objects)
+        cnt = p.__dict__.setdefault('alloc_cnt', {})
+        k = cnt.get(site, 0); cnt[site] = k + 1
+        key = (s.tid, site, k)
+        tab = s.__dict__.setdefault('site_addr', {})
+        hit = tab.get(key)
+        if hit is not None and hit[1] >= size and hit[0] % max(align, 16) == 0: return hit[0]
+        a = s.malloc(max(size, 64), align, site_pool=True)
+        tab[key] = (a, max(size, 64))
         return a
 
     # ------------------------------------------------------------------ SMT encoding
@@ -1432,7 +1565,7 @@ class Engine:
     def in_alloc(s, a, size):
         if a >= STACK_BASE: return True
         if GLOB_BASE <= a < HEAP_BASE: return True
-        for (b, n) in getattr(s, 'allocs', []):
+        for (b, n) in getattr(s, 'allocs', []) + getattr(s, 'site_allocs', []):
             if b <= a and a + size <= b + n: return True
         return False
 
@@ -1461,15 +1594,24 @@ class Engine:
         if z3.is_false(r): return False
         return r
 
+    def clk_of(s, m, e):
+        v = m.eval(s.C[e.id], model_completion=True)
+        return v.as_signed_long() if z3.is_bv_value(v) else v.as_long()
+
+    def exactly_one(s, vs):
+        if len(vs) == 1: return vs[0]
+        return z3.And(z3.Or(*vs), *[z3.Not(z3.And(vs[i], vs[j])) for i in range(len(vs)) for j in range(i + 1, len(vs))])
+
     def encode(s):
         t0 = time.time()
         S = z3.Solver()
         evs = s.events
-        C = [z3.Int('c%d' % e.id) for e in evs]
+        bvclk = s.opts.get('clk', 'int') == 'bv'
+        C = [z3.BitVec('c%d' % e.id, 16) if bvclk else z3.Int('c%d' % e.id) for e in evs]
         G = [z3.And(*e.guard) if e.guard else z3.BoolVal(True) for e in evs]
         nthreads = len(s.thread_names)
         for e in evs:
-            S.add(C[e.id] > 0)
+            if not bvclk: S.add(C[e.id] > 0)
             e.anc = s.ancestors(e)
         # program order (model dependent).  Constraints are emitted WITHOUT guards: clocks of non-executed events are
         # not used by any other constraint, and any subset of program order is satisfiable, so this only allows a
@@ -1494,6 +1636,7 @@ class Engine:
                         be.add(a.id); be |= before.get(a.id, set())
                     elif sa is not False: S.add(z3.Implies(z3.And(G[a.id], G[e.id], sa), C[a.id] < C[e.id])); nppo += 1
             before[e.id] = be
+        for c in s.env: S.add(c)
         # harness assumptions restrict the set of executions (they are not thread exits)
         for (pc, c) in s.assumes: S.add(z3.Implies(z3.And(*pc) if pc else z3.BoolVal(True), c))
         # final thread runs after everything else
@@ -1559,17 +1702,17 @@ class Engine:
             rfv = [z3.Bool('rf_%d_%d_%d_%d' % (wc[0].id, wc[1], r.id, roff)) for wc, _ in cands] + [z3.Bool('rf_init_%d_%d' % (r.id, roff))]
             nrf += len(rfv)
             if is_c(raddr):
-                S.add(z3.Implies(G[r.id], z3.PbEq([(v, 1) for v in rfv], 1)))
+                S.add(z3.Implies(G[r.id], s.exactly_one(rfv)))
             else:
                 # an address outside the enumerated candidate set reads an arbitrary value: keeps the access reachable so
                 # that its enumeration obligation (checked first) cannot be masked by the read's own rf constraints
                 wild = z3.Bool('rf_wild_%d_%d' % (r.id, roff))
-                S.add(z3.Implies(G[r.id], z3.PbEq([(v, 1) for v in rfv + [wild]], 1)))
+                S.add(z3.Implies(G[r.id], s.exactly_one(rfv + [wild])))
                 S.add(z3.Implies(wild, z3.And(*[tobv(r.addr, 64) != av for av in sorted(s.addr_set(r))])))
                 if iv is None: iv = z3.BitVecVal(0, 8 * g)
             # L = clock of the coherence-latest write visible to r (external writes earlier in the global order and the
             # thread's own po-earlier writes); the source of r is exactly that write -- linear in the number of candidates
-            L = z3.Int('L_%d_%d' % (r.id, roff))
+            L = z3.BitVec('L_%d_%d' % (r.id, roff), 16) if bvclk else z3.Int('L_%d_%d' % (r.id, roff))
             for (wc, sa), v in zip(cands, rfv):
                 w = wc[0]
                 act = [G[w.id]] + ([sa] if sa is not True else [])
@@ -1591,8 +1734,13 @@ class Engine:
         tev = [e for e in evs if e.kind == 'T']
         for i, t1 in enumerate(tev):
             for t2 in tev[i + 1:]:
-                S.add(z3.Implies(z3.And(G[t1.id], G[t2.id], C[t1.id] < C[t2.id]), z3.ULE(t1.val, t2.val)))
-                S.add(z3.Implies(z3.And(G[t1.id], G[t2.id], C[t2.id] < C[t1.id]), z3.ULE(t2.val, t1.val)))
+                def le(x, y):
+                    (xs, xn), (ys, yn) = x.init_val, y.init_val
+                    if is_c(xs) and is_c(ys) and xs == ys: return z3.ULE(tobv(xn, 64), tobv(yn, 64))
+                    if is_c(xn) and is_c(yn) and xn == yn: return z3.ULE(tobv(xs, 64), tobv(ys, 64))
+                    return z3.Or(z3.ULT(xs, ys), z3.And(xs == ys, z3.ULE(xn, yn)))
+                S.add(z3.Implies(z3.And(G[t1.id], G[t2.id], C[t1.id] < C[t2.id]), le(t1, t2)))
+                S.add(z3.Implies(z3.And(G[t1.id], G[t2.id], C[t2.id] < C[t1.id]), le(t2, t1)))
         # futex waits
         wakes = [e for e in evs if e.fx == 'wake']
         for (fw, rs, pc, timeout) in s.futex_waits:
@@ -1603,6 +1751,7 @@ class Engine:
                 if sa is False: continue
                 alts.append(z3.And(G[wk.id], C[fw.id] < C[wk.id], C[wk.id] < C[rs.id], *([sa] if sa is not True else [])))
             if not (is_c(timeout) and timeout == 0): alts.append(z3.Bool('timedout_%d' % fw.id))
+            if s.opts.get('spurious') == '1': alts.append(z3.BoolVal(True))
             S.add(z3.Implies(z3.And(*pc), z3.Or(*alts) if alts else z3.BoolVal(False)))
         for (pc, fw, text, tid) in s.stuck:
             for wk in wakes:
@@ -1638,9 +1787,14 @@ class Engine:
             S.pop(); return 'unsat', None, 0.0
         S.add(z3.Or(*viol))
         t0 = time.time()
-        r = S.check()
+        if s.opts.get('clk', 'int') == 'bv':
+            # pure bit-vector formula: a fresh non-incremental QF_BV solver (bit-blasting + SAT) per query
+            S2 = z3.SolverFor('QF_BV'); S2.set('timeout', int(s.opts.get('qcap', '120')) * 1000)
+            for a in S.assertions(): S2.add(a)
+            r = S2.check(); m = S2.model() if r == z3.sat else None
+        else:
+            r = S.check(); m = S.model() if r == z3.sat else None
         dt = time.time() - t0
-        m = S.model() if r == z3.sat else None
         S.pop()
         return str(r), m, dt
 
@@ -1669,7 +1823,7 @@ class Engine:
         rows = []
         for e in s.events:
             if z3.is_true(m.eval(s.G[e.id], model_completion=True)):
-                rows.append((m.eval(s.C[e.id], model_completion=True).as_long(), e))
+                rows.append((s.clk_of(m, e), e))
         rows.sort(key=lambda x: (x[0], x[1].id))
         out = []
         for c, e in rows:
@@ -1714,7 +1868,7 @@ class Engine:
         rows = []
         for e in s.events:
             if z3.is_true(m.eval(s.G[e.id], model_completion=True)):
-                rows.append((m.eval(s.C[e.id], model_completion=True).as_long(), e))
+                rows.append((s.clk_of(m, e), e))
         rows.sort(key=lambda x: (x[0], x[1].id))
         out = []
         for c, e in rows:
@@ -1727,7 +1881,7 @@ class Engine:
         nd = {}
         for d in m.decls():
             nm = d.name()
-            if nm.startswith('nd_') or nm.startswith('sec_') or nm.startswith('timedout_') or nm.startswith('resumed_'):
+            if nm.startswith('nd_') or nm.startswith('sec_') or nm.startswith('nsec_') or nm.startswith('tns_') or nm.startswith('timedout_') or nm.startswith('resumed_'):
                 v = m[d]
                 nd[nm] = v.as_long() if z3.is_bv_value(v) else bool(z3.is_true(v))
         return dict(events=out, inputs=nd)
